@@ -12,6 +12,12 @@ ENGINES = [
      'kind_free_text': 'preemption-bounded controlled scheduler over compiler-inserted load/store hooks with conflict (race) monitor'},
 ]
 TEXT = {
+    'C16': {
+        'level': 'An allocation ledger plugged into the seam the library\'s own tests use (Memory::Allocate/Deallocate -> MemoryRecord) is checked between ALL transitions of breadth-first operation-history searches (depth 4 quick / 5 thorough, canonical-state dedup) over Array<int>, Array<Tracked>, String, StringStream, HArray, HList, Value (all of the C12-C14 alphabets) and a dedicated tag-cache lifetime system (parse 12 templates covering every tag kind, copy, move, self-assign, clear, reset, compress, drop, append, destroy in either order, render through either cache = fresh render); and after every text of the JSON unit space (every rejected text included) and the template token/deviation space (every malformed template included, rendered directly and through a copied cache whose original is destroyed first). Unknown release = foreign/double release; live blocks when all objects are gone = leak; the ASan variant adds use-after-release.',
+        'design_ref': 'DESIGN.md §5 C16',
+        'note': 'The ledger sees Memory::Allocate/Deallocate only (the library has no other allocation path); histories and inputs up to the stated bounds.',
+        'technique': 'explicit-state BFS over operation histories and bounded-exhaustive inputs on the implementation with an allocation-ledger invariant on every state',
+    },
     'C17': {
         'level': 'Stateless model checking of the real renderer under a hand-written controlled scheduler: 2 and 3 renders run as coroutines; clang trace-loads/trace-stores instrumentation makes every load and store of the code under test a hook; every access to memory that is not the coroutine\'s own stack or its own allocation is a scheduling point and is entered into per-granule reader/writer sets. ALL schedules with <=1 (quick) / <=2 (thorough, 2 threads) preemptions are executed for 48 configurations (16 templates covering every tag kind incl. sort/group x shared value / different values). After each schedule: every output equals a fresh single render, the canonical dump of the tag cache and the values are unchanged, stream prefixes intact, and no shared granule was written by one render and touched by another. Zero conflicts on the serial schedule means every interleaving is equivalent to the serial one (no happens-before edges exist in the code), which makes the bounded result complete for the configuration. Plus all histories of <=3/4 sequential steps (cached renders into fresh/pre-filled streams, cache copy, cache move) per template, and a free-running ThreadSanitizer pass of the same bodies on 4 OS threads.',
         'design_ref': 'DESIGN.md §2 E4, §5 C17',
